@@ -280,6 +280,11 @@ func (rn *runner) makePackagings(s *wsState) error {
 	if all["wrapsub.zip"], err = zipBytes(wrappedJunk, "", false); err != nil {
 		return err
 	}
+	wrapsubGz, err := gzipBytes(all["wrapsub.tar"])
+	if err != nil {
+		return err
+	}
+	all["wrapsub.tar.gz"] = wrapsubGz
 	if all["dotslash-sub.tar"], err = styledTarBytes(withJunk, "", "dotslash"); err != nil {
 		return err
 	}
@@ -297,6 +302,12 @@ func (rn *runner) makePackagings(s *wsState) error {
 		if err := os.WriteFile(filepath.Join(pk, name), data, 0o644); err != nil {
 			return err
 		}
+	}
+	// a git repository with the contents of sub.tar (round 3)
+	if err := makeGitRepo(filepath.Join(pk, "repo.git"), withJunk); err != nil {
+		rn.r.Incomplete("workspace " + s.def.Name + ": no git input: " + err.Error())
+	} else {
+		s.gitOK = true
 	}
 	// another encoding of the image for the selection routes
 	if res := rn.cli(s, "build", ".", "-o", "../out/o.yaml.gz"); res.ExitCode != 0 {
@@ -352,6 +363,17 @@ func (rn *runner) packagingItems(s *wsState) []func() {
 		packaging{name: "zip-strip-components-2", ref: "../pk/clean2.zip#strip_components=2"},
 		packaging{name: "tar-strip-components-and-subdir", ref: "../pk/wrapsub.tar#strip_components=1,subdir=top"},
 		packaging{name: "zip-strip-components-and-subdir", ref: "../pk/wrapsub.zip#subdir=top,strip_components=1"},
+	)
+	if s.gitOK {
+		packs = append(packs,
+			packaging{name: "git-subdir", ref: "../pk/repo.git#subdir=top"},
+			packaging{name: "git-branch-subdir", ref: "../pk/repo.git#branch=main,subdir=top"},
+		)
+	}
+	packs = append(packs,
+		packaging{name: "tar-subdir-two-levels", ref: "../pk/clean2.tar#subdir=top/second"},
+		packaging{name: "zip-subdir-spelled-dotslash", ref: "../pk/sub.zip#subdir=./top"},
+		packaging{name: "tar.gz-subdir-dot", ref: "../pk/ws.tar.gz#subdir=."},
 	)
 	// archives whose entry names are not in normal form: style x {tar, tar.gz (dotslash), zip} x strip_components 0..2,
 	// and the dotslash style with subdir / strip+subdir
